@@ -25,6 +25,7 @@ fn dispatch(id: &str, tier: Tier) -> i32 {
         "C06" => props::hist::check_c06(tier),
         "C07" => props::hist::check_c07(tier),
         "C08" => props::hist::check_c08(tier),
+        "C03" => props::c03::check(tier),
         "C12" => props::c12::check(tier),
         "C13" => props::c13::check(tier),
         "C28" => props::c28::check(tier),
@@ -46,6 +47,7 @@ fn replay_dispatch(id: &str, family: &str, case: &serde_json::Value) -> Option<V
         "C06" | "C07" | "C08" => Some(props::hist::replay(id, case)),
         "C05" | "C09" | "C10" | "C11" | "C29" => Some(props::hist2::replay(id, case)),
         "C24" => Some(props::c24::replay(case)),
+        "C03" => Some(props::c03::replay(family, case)),
         "C12" => Some(props::c12::replay(family, case)),
         "C13" => Some(props::c13::replay(family, case)),
         "C28" => Some(props::c28::replay(family, case)),
@@ -65,6 +67,9 @@ fn main() {
     hijack_stdout();
     install_panic_hook();
     install_logger();
+    if args[1] == "c03-worker" {
+        props::c03::worker_main(&args[2..]);
+    }
     let threads = std::env::var("VERIF_THREADS").ok().and_then(|s| s.parse().ok()).unwrap_or(16usize);
     rayon::ThreadPoolBuilder::new().num_threads(threads).stack_size(64 << 20).build_global().ok();
     match args[1].as_str() {
